@@ -644,6 +644,22 @@ class ClassRef:
         return hash(self.name)
 
 
+class RefCopy:
+    """copy.copy of a heap object addressed by a symbolic reference: a NEW object whose attributes are those of the original
+    until written; writes go to the copy only (shallow copy semantics)"""
+
+    def __init__(self, orig):
+        self.orig, self.over = orig, {}
+
+    def sym_getattr(self, ex, attr):
+        if attr in self.over:
+            return self.over[attr]
+        return ex.getattr(self.orig, attr)
+
+    def sym_setattr(self, ex, attr, v):
+        self.over[attr] = v
+
+
 class ModRef:
     def __init__(self, name):
         self.name = name
